@@ -367,7 +367,9 @@ Definition concatenate (arrays : list darr) (r : axref) (do_align sort : bool) :
   | [] => Err ValueError
   | a0 :: _ =>
       let! i := match r with
-                | ByPos z => if (0 <=? z)%Z then Ok (Z.to_nat z) else Err OtherError
+                | ByPos z => if (0 <=? z)%Z then Ok (Z.to_nat z)              (* negative positions count from the end *)
+                             else if (0 <=? z + Z.of_nat (List.length (axes a0)))%Z then Ok (Z.to_nat (z + Z.of_nat (List.length (axes a0))))
+                             else Err IndexError
                 | ByName s => match find_dim (dims a0) s with Some i => Ok i | None => Err ValueError end
                 end in
       if List.length (axes a0) <=? i then Err IndexError else
